@@ -10,7 +10,7 @@
                                  distance d at time t *)
 From Coq Require Import Reals List Bool Lra Permutation.
 From Verif.Sem Require Import RInst.
-From Verif.C11 Require Import Clip Inst Spec ProofsClip ProofsConvex ProofsCascade ProofsRegular.
+From Verif.C11 Require Import Clip Inst Spec ProofsClip ProofsConvex ProofsCascade ProofsRegular Multi ProofsMulti.
 Import ListNotations.
 Open Scope R_scope.
 
@@ -85,6 +85,29 @@ Theorem C11_regular_R : forall t0 t1 w0 w1 (cs : list (chopper O)) s,
     forallb (is_regular O) (fpolys (propagate_to O d fr)) = true /\
     subbounds O (propagate_to O d fr) <> inr true.
 Proof. exact (regular_R mn h sc). Qed.
+
+(* a frame propagated to a RANGE of distances in one call (Verif.C11.Multi): bounds() and subbounds()
+   have one entry per distance, and entry k is that of the frame propagated to the single distance d_k
+   (to which the theorems above apply) *)
+Theorem C11_multi_bounds_pointwise : forall (ds : list R) (fr : frame O) l,
+  bounds_multi O ds fr = Some l ->
+  (length l = length ds)%nat /\
+  forall k d, nth_error ds k = Some d -> nth_error l k = Some (bounds O (propagate_to O d fr)).
+Proof. exact (bounds_multi_pointwise O). Qed.
+Theorem C11_multi_subbounds_pointwise : forall (ds : list R) (fr : frame O) l,
+  subbounds_multi O ds fr = inl l ->
+  (length l = length ds)%nat /\
+  forall k d, nth_error ds k = Some d -> nth_error l k = Some (sub_bounds_list O (propagate_to O d fr)).
+Proof. exact (subbounds_multi_pointwise O). Qed.
+(* ... and for a band of non-negative wavelengths every subframe of a cascade propagated downstream to
+   any non-empty range of distances is regular (is_regular then takes min / max over all distances and
+   vertices together), so subbounds() does not take its NotImplementedError branch *)
+Theorem C11_regular_multi_R : forall t0 t1 w0 w1 (cs : list (chopper O)) s,
+  0 <= al -> t0 <= t1 -> 0 <= w0 -> w0 <= w1 -> seq_chop O cs (source O t0 t1 w0 w1) = Some s ->
+  forall fr (ds : list R), In fr s -> ds <> [] -> (forall d, In d ds -> fdist fr <= d) ->
+    forallb (is_regular_multi O) (multi_sub O ds fr) = true /\
+    subbounds_multi O ds fr <> inr true.
+Proof. exact (regular_multi_R mn h sc). Qed.
 End P.
 
 (* the hypotheses are satisfiable: a 1 x 1 rectangle, one chopper at distance 1 with window [1, 2]
@@ -94,6 +117,19 @@ Example C11_nonvacuous :
 Proof.
   exists (1 / 2, 1). unfold in_rect, transmitted, passes, arrival; simpl.
   repeat split; try lra. constructor; [|constructor]. constructor. simpl. lra.
+Qed.
+
+(* the hypotheses of C11_regular_multi_R are satisfiable: the unchopped 1 x 1 pulse at 0 m propagated
+   to 1 m and 2 m *)
+Example C11_multi_nonvacuous :
+  exists s fr (ds : list R),
+    seq_chop (ROps 1 1 1) [] (source (ROps 1 1 1) 0 1 1 2) = Some s /\ In fr s /\ ds <> [] /\
+    (forall d, In d ds -> fdist fr <= d) /\ exists l, bounds_multi (ROps 1 1 1) ds fr = Some l.
+Proof.
+  eexists. eexists. exists [1; 2]. split; [reflexivity|]. split; [left; reflexivity|].
+  split; [discriminate|]. split.
+  - intros d [<- | [<- | []]]; simpl; lra.
+  - eexists. reflexivity.
 Qed.
 
 Print Assumptions C11_clip_sound.
@@ -107,3 +143,6 @@ Print Assumptions C11_order_irrelevant_sorted.
 Print Assumptions C11_order_irrelevant.
 Print Assumptions C11_two_step_propagation.
 Print Assumptions C11_regular_R.
+Print Assumptions C11_multi_bounds_pointwise.
+Print Assumptions C11_multi_subbounds_pointwise.
+Print Assumptions C11_regular_multi_R.
